@@ -55,24 +55,28 @@ Theorem GI_is_generic : forall u, nobr E u = true -> is_wrapper u = false ->
   I.issubscriptedgeneric tbl (tr Nm u) || I.isuniontype tbl (tr Nm u) = G.is_generic E u.
 Proof. exact (is_generic_tr tbl Nm E (GI_base_ok f) Hrows). Qed.
 
-Theorem GI_should_unwrap : forall t, I.should_unwrap tbl (tr Nm t) = is_final (wcore t).
-Proof. exact (should_unwrap_tr tbl Nm E (GI_base_ok f) Hrows). Qed.
+Theorem GI_should_unwrap : forall t, I.should_unwrap tbl (tr Nm t) = G.should_unwrap t.
+Proof. exact (should_unwrap_G tbl Nm E (GI_base_ok f) Hrows). Qed.
 
 (* the decision of get_type_graph on a revisited, cyclic-capable member: deferred as itself iff generic, qualified
-   or already a reference (otherwise the reference branch) *)
-Theorem GI_defer_decision : forall c, nobr E (G.unwrap c) = true -> su_guard c = true ->
+   (also behind NewTypes / aliases) or already a reference (otherwise the reference branch) *)
+Theorem GI_defer_decision : forall c, nobr E (G.unwrap c) = true ->
   (I.issubscriptedgeneric tbl (tr Nm (G.unwrap c)) || I.isuniontype tbl (tr Nm (G.unwrap c)))
   || I.should_unwrap tbl (tr Nm c) || I.isforwardref (tr Nm c)
   = G.is_generic E (G.unwrap c) || G.should_unwrap c || G.is_ref c.
 Proof. exact (defer_decision_tr tbl Nm E (GI_base_ok f) Hrows). Qed.
 
-Theorem GI_isliteral : forall t, I.isliteral tbl (tr Nm t) = G.is_literal (wcore t) || ref_literal t.
+(* isliteral: exact on every annotation that is not a NewType / alias (graph.py asks unwrapped parents only);
+   in general: a Literal behind NewTypes / aliases, or a reference named Literal.. *)
+Theorem GI_isliteral : forall t, is_wrapper t = false -> I.isliteral tbl (tr Nm t) = G.is_literal t.
+Proof. exact (isliteral_plain_tr tbl Nm E (GI_base_ok f) Hrows). Qed.
+Theorem GI_isliteral_any : forall t, I.isliteral tbl (tr Nm t) = lit_core t || ref_literal t.
 Proof. exact (isliteral_tr tbl Nm E (GI_base_ok f) Hrows). Qed.
 
 Theorem GI_isforwardref : forall t, I.isforwardref (tr Nm t) = G.is_ref t.
 Proof. exact (isforwardref_tr Nm). Qed.
 
-Theorem GI_isfixedtuple : forall t, I.isfixedtupletype tbl (tr Nm t) = G.is_fixed_tuple t || empty_tuple t.
+Theorem GI_isfixedtuple : forall t, I.isfixedtupletype tbl (tr Nm t) = G.is_fixed_tuple t.
 Proof. exact (isfixedtupletype_tr tbl Nm (GI_base_ok f)). Qed.
 
 Theorem GI_isstructured : forall t, plain t = true -> I.isstructuredtype tbl (tr Nm t) = structured_g t.
@@ -144,6 +148,22 @@ Example GI_hyps_satisfiable :
   /\ I.isstructuredtype tbl (tr ex_Nm (G.GClass 1)) = true /\ I.isstructuredtype tbl (tr ex_Nm (G.GClass 2)) = true.
 Proof. vm_compute. repeat split; apply le_n || (repeat constructor). Qed.
 
+(* (aligned with /repo since: Inspect.unwrap and Graph.unwrap drop "<module>." like refs.forwardref -- where it leads a
+   dotted name only, 31a6d65; tuple[()] is a fixed tuple for
+   Graph.is_fixed_tuple; Graph.should_unwrap sees a qualifier behind NewTypes / aliases) *)
+Example GI_aligned :
+  I.unwrap tbl (tr ex_Nm (G.GAliasStr I.user_module "A" "verif_c17_mod.UData"))
+    = I.Ok (tr ex_Nm (G.unwrap (G.GAliasStr I.user_module "A" "verif_c17_mod.UData")))
+  /\ G.unwrap (G.GAliasStr I.user_module "A" "verif_c17_mod.UData") = G.GRef "UData" (Some I.user_module)
+  /\ I.unwrap tbl (tr ex_Nm (G.GAliasStr I.user_module "B" "xverif_c17_mod.UData"))
+     = I.Ok (I.IForwardRef "xverif_c17_mod.UData" (Some I.user_module))
+  /\ G.unwrap (G.GAliasStr I.user_module "B" "xverif_c17_mod.UData") = G.GRef "xverif_c17_mod.UData" (Some I.user_module)
+  /\ I.isfixedtupletype tbl (tr ex_Nm (G.GGen G.GTuple [])) = true /\ G.is_fixed_tuple (G.GGen G.GTuple []) = true
+  /\ G.level ex_E (G.GGen G.GTuple []) = []
+  /\ I.should_unwrap tbl (tr ex_Nm (G.GNewType "m" "NF" (G.GFinal (G.GScalar G.SInt)))) = true
+  /\ G.should_unwrap (G.GNewType "m" "NF" (G.GFinal (G.GScalar G.SInt))) = true.
+Proof. vm_compute. repeat split. Qed.
+
 (* ---------------------------------------------------------------- where the two models disagree *)
 (* The agreements without their guards: *)
 Definition GI_full : Prop :=
@@ -152,26 +172,15 @@ Definition GI_full : Prop :=
     /\ I.args (tr (nmf f) t) = map (tr (nmf f)) (G.args_of t)
     /\ I.issubscriptedgeneric tbl (tr (nmf f) t) = G.is_subscripted E t
     /\ I.isstdlibtype tbl (tr (nmf f) t) = G.is_stdlib t
-    /\ I.isfixedtupletype tbl (tr (nmf f) t) = G.is_fixed_tuple t
-    /\ I.isliteral tbl (tr (nmf f) t) = G.is_literal t
-    /\ I.should_unwrap tbl (tr (nmf f) t) = G.should_unwrap t.
+    /\ I.isliteral tbl (tr (nmf f) t) = G.is_literal t.
 
-(* (1) INSPECT model: unwrap of a string alias does not strip "<module>." from the text (refs.forwardref does):
-       /repo answers ForwardRef('UData', module=m) as Graph.v says *)
-Theorem GI_refuted_unwrap_strip : exists t, unwrap_guard t = false /\ wsize t < 200
-  /\ I.unwrap tbl (tr ex_Nm t) <> I.Ok (tr ex_Nm (G.unwrap t))
-  /\ G.unwrap t = G.GRef "UData" (Some I.user_module).
-Proof.
-  exists (G.GAliasStr I.user_module "A" "verif_c17_mod.UData").
-  split; [reflexivity|]. split; [repeat constructor|]. split; [vm_compute; discriminate | reflexivity].
-Qed.
-(* (2) INSPECT model: the wrapper loop has fuel 200 (the code loops without bound) *)
+(* (1) INSPECT model: the wrapper loop has fuel 200 (the code loops without bound) *)
 Theorem GI_refuted_unwrap_fuel : exists t, wsize t = 200 /\ unwrap_guard t = true
   /\ I.unwrap tbl (tr ex_Nm t) = I.Raise I.EOther /\ G.unwrap t = G.GScalar G.SInt.
 Proof.
   exists (Nat.iter 200 (G.GNewType "m" "N") (G.GScalar G.SInt)). vm_compute. repeat split.
 Qed.
-(* (3) GRAPH model: args_of answers () for Literal[1] and Final[int]; inspection.args answers (1,) and (int,).
+(* (2) GRAPH model: args_of answers () for Literal[1] and Final[int]; inspection.args answers (1,) and (int,).
        Not reachable from the walk: a literal parent is cut before _level, parents are unwrapped *)
 Theorem GI_refuted_args : exists t1 t2, args_guard t1 = false /\ args_guard t2 = false
   /\ I.args (tr ex_Nm t1) <> map (tr ex_Nm) (G.args_of t1)
@@ -179,7 +188,7 @@ Theorem GI_refuted_args : exists t1 t2, args_guard t1 = false /\ args_guard t2 =
 Proof.
   exists (G.GLit 1), (G.GFinal (G.GScalar G.SInt)). repeat split; vm_compute; discriminate.
 Qed.
-(* (4) GRAPH model: is_stdlib says False for a NewType / alias of a union of stdlib and non-stdlib classes;
+(* (3) GRAPH model: is_stdlib says False for a NewType / alias of a union of stdlib and non-stdlib classes;
        inspection.isstdlibtype says True (isuniontype sees through the wrapper, get_args of the wrapper is empty) *)
 Theorem GI_refuted_isstdlib_wrapped_union : exists t1 t2, std_guard t1 = false /\ std_guard t2 = false
   /\ I.isstdlibtype tbl (tr ex_Nm t1) = true /\ G.is_stdlib t1 = false
@@ -189,13 +198,7 @@ Proof.
          (G.GUnion G.UUnion [G.GAlias "m" "AU" (G.GUnion G.UUnion [G.GScalar G.SInt; G.GScalar G.SFraction]); G.GScalar G.SStr]).
   vm_compute. repeat split.
 Qed.
-(* (5) GRAPH model: tuple[()] is a fixed tuple for inspection.py (330087d), not for is_fixed_tuple; the members
-       graph._level lists are the same (none) *)
-Theorem GI_refuted_fixedtuple_empty :
-  I.isfixedtupletype tbl (tr ex_Nm (G.GGen G.GTuple [])) = true /\ G.is_fixed_tuple (G.GGen G.GTuple []) = false
-  /\ G.level ex_E (G.GGen G.GTuple []) = [].
-Proof. vm_compute. repeat split. Qed.
-(* (6) GRAPH model: a class whose name carries "[" is a subscripted generic for the string test of
+(* (4) GRAPH model: a class whose name carries "[" is a subscripted generic for the string test of
        issubscriptedgeneric; has_bracket answers False for every class.  Rows built from the environment itself *)
 Definition br_cl : cenv := [(0, (900001%N, {| G.cmodule := "m"; G.cqual := "A["; G.cfields := [] |}))].
 Theorem GI_refuted_subscripted_class_name :
@@ -204,16 +207,11 @@ Theorem GI_refuted_subscripted_class_name :
   /\ I.issubscriptedgeneric T' (tr (nml br_cl) (G.GClass 0)) = true
   /\ G.is_subscripted (env_of_cenv br_cl) (G.GClass 0) = false.
 Proof. vm_compute. repeat split. Qed.
-(* (7) GRAPH model: a qualifier / a Literal behind a NewType: inspection.should_unwrap and isliteral see through
-       NewTypes and aliases, Graph.should_unwrap and is_literal look at the outermost constructor (graph.py asks
-       isliteral on unwrapped parents only) *)
-Theorem GI_refuted_behind_wrapper : exists t1 t2,
-  I.should_unwrap tbl (tr ex_Nm t1) = true /\ G.should_unwrap t1 = false
-  /\ I.isliteral tbl (tr ex_Nm t2) = true /\ G.is_literal t2 = false.
-Proof.
-  exists (G.GNewType "m" "NF" (G.GFinal (G.GScalar G.SInt))), (G.GNewType "m" "NL" (G.GLit 1)).
-  vm_compute. repeat split.
-Qed.
+(* (5) GRAPH model: a Literal behind a NewType: inspection.isliteral sees through NewTypes and aliases, Graph.is_literal
+       looks at the outermost constructor.  Not reachable: graph.py asks isliteral on unwrapped parents only *)
+Theorem GI_refuted_isliteral_behind_wrapper : exists t, is_wrapper t = true
+  /\ I.isliteral tbl (tr ex_Nm t) = true /\ G.is_literal t = false /\ G.is_literal (G.unwrap t) = true.
+Proof. exists (G.GNewType "m" "NL" (G.GLit 1)). vm_compute. repeat split. Qed.
 Theorem GI_refuted_full : ~ GI_full.
 Proof.
   intro H. specialize (H (ncls_of ex_cl) ex_E (GI_rows_sound ex_cl GI_rows_satisfiable) (G.GLit 1)).
@@ -231,6 +229,7 @@ Print Assumptions GI_is_generic.
 Print Assumptions GI_should_unwrap.
 Print Assumptions GI_defer_decision.
 Print Assumptions GI_isliteral.
+Print Assumptions GI_isliteral_any.
 Print Assumptions GI_isforwardref.
 Print Assumptions GI_isfixedtuple.
 Print Assumptions GI_isstructured.
@@ -240,11 +239,9 @@ Print Assumptions GI_skip.
 Print Assumptions GI_qualname.
 Print Assumptions GI_class_names.
 Print Assumptions GI_rows_sound.
-Print Assumptions GI_refuted_unwrap_strip.
 Print Assumptions GI_refuted_unwrap_fuel.
 Print Assumptions GI_refuted_args.
 Print Assumptions GI_refuted_isstdlib_wrapped_union.
-Print Assumptions GI_refuted_fixedtuple_empty.
 Print Assumptions GI_refuted_subscripted_class_name.
-Print Assumptions GI_refuted_behind_wrapper.
+Print Assumptions GI_refuted_isliteral_behind_wrapper.
 Print Assumptions GI_refuted_full.
